@@ -114,7 +114,99 @@ def case(item):
     return ("ok", viols[:4], n, differ)
 
 
+def _blotter(variant, order, idx):
+    """a fill / request table on (Date, Security): bar stamps or intraday stamps, with rows after the last bar"""
+    rows = []
+    q = {"a": [4.0, -2.0, 8.0, -6.0, 2.0, 4.0, -8.0], "b": [-2.0, 6.0, 0.0, 4.0, -4.0, 2.0, 2.0]}
+    n = len(idx)
+    for k, tick in enumerate(("a", "b")):
+        for j in range(7):
+            i = (2 * j + k) % (n + 2)  # may land after the last bar
+            base = idx[i] if i < n else idx[-1] + pd.Timedelta(days=i - n + 1)
+            stamp = base if variant == "bars" else base - pd.Timedelta(hours=7 - 2 * k) if variant == "intraday" else (base + pd.Timedelta(hours=17) if i == n - 1 else base)
+            if q[tick][j]:
+                rows.append((stamp, tick, q[tick][j], 4.0 + j / 4.0 + k))
+    if order == "sorted":
+        rows.sort(key=lambda r: (r[0], r[1]))
+    elif order == "reversed":
+        rows.sort(key=lambda r: (r[0], r[1]), reverse=True)
+    elif order == "interleaved":
+        rows = rows[::2] + rows[1::2]
+    # "grouped": per-security blocks as built
+    mi = pd.MultiIndex.from_tuples([(r[0], r[1]) for r in rows], names=["Date", "Security"])
+    return pd.DataFrame({"quantity": [r[2] for r in rows], "price": [r[3] for r in rows]}, index=mi)
+
+
+def _rfq_model(rfqs, target):
+    out = rfqs[["quantity", "price"]].copy()
+    out["price"] = out["price"] + 0.25
+    return out
+
+
+def blotter_case(item):
+    """ReplayTransactions / SimulateRFQTransactions over a user-supplied table in any row order: rows
+    stamped after t (changed, or removed) never change what is recorded up to t"""
+    bt = rt.bt()
+    A = bt.algos
+    algo, variant, order, pert = item
+    data = R.table("d12", "exact", late=False)[["a", "b"]]
+    idx = data.index
+    tab = _blotter(variant, order, idx)
+
+    def run_one(t):
+        if algo == "replay":
+            st = [A.ReplayTransactions("tx")]
+        else:
+            st = [A.SimulateRFQTransactions("tx", _rfq_model)]
+        s = bt.Strategy("r", st, [bt.Security("a"), bt.Security("b")])
+        b = bt.Backtest(s, data, initial_capital=1024.0, integer_positions=False, progress_bar=False, additional_data={"tx": t, "bidoffer": pd.DataFrame(0.0, index=idx, columns=["a", "b"])})
+        b.run()
+        return b
+
+    viols = []
+    n = differ = 0
+    try:
+        b0 = run_one(tab)
+    except Exception as e:
+        return ("ok", [{"rule": "crash", "expected": "the base run over a well-formed table completes", "observed": rt.describe(e), "where": {"cut": -1}}], 0, 0)
+    full0 = json.dumps(R.run_histories(b0), sort_keys=True, default=str)
+    traded = sum(1 for x in b0.strategy["a"].positions.values if x != 0.0)
+    for ci in range(len(idx)):
+        cut = idx[ci]
+        stamps = tab.index.get_level_values("Date")
+        later = stamps > cut
+        if not later.any():
+            continue
+        t = tab.copy()
+        if pert == "scale":
+            t.loc[later, "quantity"] = t.loc[later, "quantity"] * 2.0 + 1.0
+            t.loc[later, "price"] = t.loc[later, "price"] * 1.5
+        elif pert == "drop":
+            t = t[~later]
+        else:  # negate
+            t.loc[later, "quantity"] = -t.loc[later, "quantity"]
+        try:
+            b1 = run_one(t)
+        except Exception as e:
+            if rt.classify(e) == "guard":
+                continue
+            viols.append({"rule": "crash", "observed": rt.describe(e), "where": {"cut": ci}})
+            continue
+        n += 1
+        if json.dumps(R.run_histories(b1), sort_keys=True, default=str) != full0:
+            differ += 1
+        d = compare(histories_upto(b0, cut), histories_upto(b1, cut))
+        if d is not None:
+            key, x, y = d
+            viols.append({"rule": "past_depends_on_future", "expected": {"cut": str(cut), "table": "transactions / requests stamped after the cut: " + pert, "series": list(key), "value": x}, "observed": y, "where": {"cut": ci}})
+    if not traded:
+        viols.append({"rule": "vacuity", "expected": "the table produces trades", "observed": "no position was ever opened", "where": {"cut": -1}})
+    return ("ok", viols[:4], n, differ)
+
+
 def replay(c):
+    if c.get("kind") == "blotter":
+        return blotter_case(tuple(c["item"]))[1]
     return case((c["spec"], [c["where"]["cut"]], [tuple(c["where"]["kind"][:1]) + tuple(tuple(x) if isinstance(x, list) else x for x in c["where"]["kind"][1:])]))[1]
 
 
@@ -140,7 +232,7 @@ def specs(tier, seed):
 
 
 def run(ctx):
-    ctx.rule = "strategies of the run family x cut dates x perturbations (affine rescale, reversal of the future rows, column rotation; thorough: every single future cell of the 6-date tables) applied to every supplied table after the cut; a case is non-trivial if the perturbed run completed and differs from the base run somewhere"
+    ctx.rule = "strategies of the run family x cut dates x perturbations (affine rescale, reversal of the future rows, column rotation; thorough: every single future cell of the 6-date tables) applied to every supplied table after the cut; transaction / RFQ tables (bar, intraday and after-the-last-bar stamps x row orders) with every row after the cut changed, negated or removed, at every cut including the last bar; a case is non-trivial if the perturbed run completed and differs from the base run somewhere"
     ctx.assumptions += [
         "perturbations change values only, never the index (end-of-period schedulers look at the next date label by design)",
         "a perturbed data set on which the strategy raises a documented guard is not well formed and is skipped",
@@ -166,7 +258,8 @@ def run(ctx):
             if s.get("data") == "d6":
                 pk += [("cell", (i, k)) for i in range(4) for k in range(4)]
         items.append((s, cuts, pk))
-    ctx.bounds = {"strategies": len(sp), "builds": kinds}
+    blot = [(a, v, o, p) for a in ("replay", "rfq") for v in ("bars", "intraday", "evening") for o in ("sorted", "grouped", "reversed", "interleaved") for p in ("scale", "drop", "negate")]
+    ctx.bounds = {"strategies": len(sp), "blotter_cases": len(blot), "builds": kinds}
     for kind in kinds:
         use = items if kind == "py" else items[::3]
         tot = nt = 0
@@ -176,6 +269,12 @@ def run(ctx):
             nt += differ
             for v in viols:
                 ctx.violation(dict(v, build=kind, module=MOD, case={"spec": item[0], "where": v["where"]}))
+        for item, (status, viols, n, differ) in ctx.run(kind, MOD, "blotter_case", blot, chunksize=1):
+            ctx.add(states=1 if status == "ok" else 0, transitions=n + 1, traces_validated_against_impl=n + 1, evaluations=n, refused=0 if status == "ok" else 1)
+            tot += n
+            nt += differ
+            for v in viols:
+                ctx.violation(dict(v, build=kind, module=MOD, case={"kind": "blotter", "item": list(item), "where": v.get("where")}))
         ctx.nontrivial_count += nt
         ctx.extra.setdefault("pairs", []).append({"build": kind, "strategies": len(use), "perturbed_runs_compared": tot, "of_which_differ_after_the_cut": nt})
         if tot and nt < 0.3 * tot:
